@@ -21,6 +21,10 @@ open Src.StringUtil Src.OplParserFunctions
 
 /-! ### `append_codepoint_as_utf8` = `Utf8.encode` -/
 
+/-- `split` on the next generated `if`; impossible branches are closed by linear arithmetic -/
+macro "split_e" : tactic =>
+  `(tactic| (split <;> (rename_i hc; (try cond_norm at hc); try (exfalso; omega))))
+
 /-- the bit operations of the encoder on a natural number, as a natural number -/
 macro "enc_bytes" : tactic =>
   `(tactic| simp only [push, byteOf_wrapS8, band, bor, shr, Int.toNat_natCast, Int.reduceToNat, byteOf_nat,
@@ -32,22 +36,22 @@ theorem src_tie_append_codepoint_as_utf8 (cp : Nat) (out : List UInt8) :
   constructor
   · unfold append_codepoint_as_utf8 Utf8.encode
     by_cases h1 : cp < 0x80
-    · have h1' : ((cp : Int) < 128) := by omega
-      simp only [lt_iff, h1', h1, if_true]
-      enc_bytes
-    · have h1' : ¬ ((cp : Int) < 128) := by omega
+    · rw [if_pos h1]
+      repeat' split_e
+      all_goals enc_bytes
+    · rw [if_neg h1]
       by_cases h2 : cp < 0x800
-      · have h2' : ((cp : Int) < 2048) := by omega
-        simp only [lt_iff, h1', h1, h2, h2', if_true, if_false]
-        enc_bytes
-      · have h2' : ¬ ((cp : Int) < 2048) := by omega
+      · rw [if_pos h2]
+        repeat' split_e
+        all_goals enc_bytes
+      · rw [if_neg h2]
         by_cases h3 : cp < 0x10000
-        · have h3' : ((cp : Int) < 65536) := by omega
-          simp only [lt_iff, h1', h1, h2, h2', h3, h3', if_true, if_false]
-          enc_bytes
-        · have h3' : ¬ ((cp : Int) < 65536) := by omega
-          simp only [lt_iff, h1', h1, h2, h2', h3, h3', if_true, if_false]
-          enc_bytes
+        · rw [if_pos h3]
+          repeat' split_e
+          all_goals enc_bytes
+        · rw [if_neg h3]
+          repeat' split_e
+          all_goals enc_bytes
   · unfold append_codepoint_as_utf8_defined
     have e1 : shiftOk 32 6 = true := by decide
     have e2 : shiftOk 32 12 = true := by decide
